@@ -1,10 +1,14 @@
 module verifharness
 
-go 1.22.0
+go 1.23
+
+toolchain go1.23.5
 
 require (
 	github.com/openconfig/goyang v0.0.0
 	pgregory.net/rapid v1.3.0
 )
+
+require github.com/google/go-cmp v0.7.0 // indirect
 
 replace github.com/openconfig/goyang => /repo
